@@ -73,7 +73,7 @@ UNIT = Unit(
                     ("C17-counts-bytes", "advanced(old(self).progress, final(self).progress, amt as nat)")]),
         fn("io::Seek for ProgressBarIter", "seek", ret="r", sig_rewrites=IOR,
            rewrites=[Rw("R10", r"io::SeekFrom", "SeekFrom", count="any"),Rw("R5", r"self\.it\.seek\(f\)\.map\(\|pos\| \{\s*self\.progress\.set_position\(pos\);\s*pos\s*\}\)",
-                        "match self.it.seek(f) { Ok(pos) => { self.progress.set_position(pos); Ok(pos) } Err(e) => Err(e) }")],
+                        "match self.it.seek(f) { Ok(pos) => { self.progress.set_position(pos); Ok(pos) } Err(e) => Err(e) }", count="any")],
            ensures=[("C17-transparent", "final(self).it.log@ == old(self).it.log@.push(Ev::Seek(f, r))"),
                     ("C17-seek-sets-position", "match r { Ok(p) => final(self).progress.pos == p && final(self).progress.finished == old(self).progress.finished, Err(_) => final(self).progress == old(self).progress }")]),
         fn("io::Seek for ProgressBarIter", "stream_position", ret="r", sig_rewrites=IOR,
@@ -81,12 +81,12 @@ UNIT = Unit(
                     ("C17-query-transfers-nothing", "final(self).progress == old(self).progress")]),
         fn("io::Write for ProgressBarIter", "write", ret="r", sig_rewrites=IOR,
            rewrites=[Rw("R5", r"self\.it\.write\(buf\)\.map\(\|inc\| \{\s*self\.progress\.inc\(inc as u64\);\s*inc\s*\}\)",
-                        "match self.it.write(buf) { Ok(inc) => { self.progress.inc(inc as u64); Ok(inc) } Err(e) => Err(e) }")],
+                        "match self.it.write(buf) { Ok(inc) => { self.progress.inc(inc as u64); Ok(inc) } Err(e) => Err(e) }", count="any")],
            ensures=[("C17-transparent", "final(self).it.log@ == old(self).it.log@.push(Ev::Write(buf@, r))"),
                     ("C17-counts-bytes", "match r { Ok(n) => advanced(old(self).progress, final(self).progress, n as nat), Err(_) => final(self).progress == old(self).progress }")]),
         fn("io::Write for ProgressBarIter", "write_vectored", ret="r", sig_rewrites=IOR,
            rewrites=[Rw("R5", r"self\.it\.write_vectored\(bufs\)\.map\(\|inc\| \{\s*self\.progress\.inc\(inc as u64\);\s*inc\s*\}\)",
-                        "match self.it.write_vectored(bufs) { Ok(inc) => { self.progress.inc(inc as u64); Ok(inc) } Err(e) => Err(e) }")],
+                        "match self.it.write_vectored(bufs) { Ok(inc) => { self.progress.inc(inc as u64); Ok(inc) } Err(e) => Err(e) }", count="any")],
            ensures=[("C17-transparent", "final(self).it.log@ == old(self).it.log@.push(Ev::WriteVectored(r))"),
                     ("C17-counts-bytes", "match r { Ok(n) => advanced(old(self).progress, final(self).progress, n as nat), Err(_) => final(self).progress == old(self).progress }")]),
         fn("io::Write for ProgressBarIter", "flush", ret="r", sig_rewrites=IOR,
